@@ -416,7 +416,8 @@ def truthCells (a : Acq) (sel : Option (List Int)) : List (Int × Int × Nat) :=
 
 /-- the inputs for which the ground truth is defined by the property's text: every selected
 pattern has the spot size of the first one and sits on the common pixel grid, and every line of a
-selected pattern is recorded completely or not at all -/
+selected pattern is recorded completely, not at all, or from some pixel on to its end (a signal
+that starts late, i.e. a positive delay) -/
 def truthHyp (a : Acq) (sel : Option (List Int)) : Bool :=
   let ps := selectedPatterns a sel
   let o := truthOrigin a sel
@@ -443,7 +444,7 @@ def truthHyp (a : Acq) (sel : Option (List Int)) : Bool :=
        let keys := (mine.map (fun ks => (lineKey ks.2 horiz).2)).eraseDups
        keys.all (fun k =>
          let l := mine.filter (fun ks => (lineKey ks.2 horiz).2 == k)
-         l.all (fun ks => inSig ks.1) || l.all (fun ks => !inSig ks.1)))) &&
+         ((l.getLast?.map (fun ks => inSig ks.1)).getD true) || l.all (fun ks => !inSig ks.1)))) &&
     decide (0 < a.take) && decide (a.skip + a.take ≤ (emitAll a).samples.length)
 
 /-- ground-truth image of the given size -/
